@@ -15,7 +15,7 @@ def native_mount_line(unit, modname):
     return ('\n#[cfg(all(test, not(kani)))]\n#[path = "%s/kani/%s.rs"]\nmod %s;\n' % (VERIF, unit, modname))
 
 
-CHECK_RE = re.compile(r'^Check (\d+): (\S+)\s*\n\s*- Status: (\w+)\s*\n\s*- Description: (.*)\n(?:\s*- Location: (.*)\n)?',
+CHECK_RE = re.compile(r'^Check (\d+): ([^\n]+?)\s*\n\s*- Status: (\w+)\s*\n\s*- Description: (.*)\n(?:\s*- Location: (.*)\n)?',
                       re.M)
 
 
